@@ -4,6 +4,8 @@ import (
 	"bytes"
 	"fmt"
 	"reflect"
+	"runtime"
+	"sync"
 
 	"github.com/brocaar/lorawan"
 	"github.com/brocaar/lorawan/applayer/clocksync"
@@ -578,6 +580,43 @@ func runC18(c *core.Ctx) {
 		if c.Mine("stream", i) {
 			c18Stream(c, c.RNG("stream", i), types)
 		}
+	}
+
+	// ---- concurrent key derivations with distinct keys, each judged by the model
+	if c.Mine("keys-concurrent", int64(c.Batch)) {
+		var wg sync.WaitGroup
+		var mu sync.Mutex
+		var bad []string
+		for g := 0; g < 8; g++ {
+			wg.Add(1)
+			go func(rr *core.RNG) {
+				defer wg.Done()
+				for k := 0; k < 300; k++ {
+					key := key16(rr)
+					var addr [4]byte
+					rr.Fill(addr[:])
+					got, err := multicastsetup.GetMcNetSKey(lorawan.AES128Key(key), lorawan.DevAddr(addr))
+					want := spec.McKey(key, [16]byte{0x02, addr[3], addr[2], addr[1], addr[0]})
+					got2, err2 := multicastsetup.GetMcRootKeyForAppKey(lorawan.AES128Key(key))
+					want2 := spec.McKey(key, [16]byte{0x20})
+					if err != nil || [16]byte(got) != want || err2 != nil || [16]byte(got2) != want2 {
+						mu.Lock()
+						bad = append(bad, fmt.Sprintf("key %x addr %x: McNetSKey %x (want %x), McRootKey %x (want %x)", key, addr, [16]byte(got), want, [16]byte(got2), want2))
+						mu.Unlock()
+						return
+					}
+					if k%5 == 0 {
+						runtime.Gosched()
+					}
+				}
+			}(c.RNG("keys-concurrent", int64(c.Batch)*100+int64(g)))
+		}
+		wg.Wait()
+		c.Eval(8 * 600)
+		if len(bad) > 0 {
+			c.Violate("C18|keys|concurrent-derivation", "derivations with distinct keys on 8 goroutines disagree with TS005: %s", bad[0])
+		}
+		c.Shape("keys-concurrent", c.Batch)
 	}
 
 	// ---- multicast keys (TS005 §4)
